@@ -203,9 +203,11 @@ for first in range(len(OPS)):
             REG.add(f"history/len2/{OPS[first]}+{OPS[second]}", vec_fn(3, _mk_pair(first, second)),
                     pre=vec_pre(3, lambda xs: 0 <= xs[0] <= 40 and xs[1] in (0, 1) and 0 <= xs[2] < len(POLICIES)), timeout=1500, weight=3, funcs=F, tier="thorough",
                     desc=f"history {OPS[first]}, {OPS[second]}, final close, reopen; fault position 0..40, kind and all 4 policies symbolic")
+CORE = [OPS.index(x) for x in ("close", "read", "open", "write")]
 for first in range(len(OPS)):
-    REG.add(f"history/len3/first-{OPS[first]}", vec_fn(5, _mk_history(3, first)), pre=vec_pre(5, hpre(3)), timeout=3000, weight=9, tier="thorough", funcs=F,
-            desc=f"history of 3 operations starting with {OPS[first]} (the others symbolic), fault position 0..40, kind, policy symbolic")
+    REG.add(f"history/len3/first-{OPS[first]}", vec_fn(5, _mk_history(3, first)),
+            pre=vec_pre(5, lambda xs: xs[0] in CORE and xs[1] in CORE and 0 <= xs[2] <= 16 and xs[3] in (0, 1) and xs[4] == 0), timeout=2400, weight=9, tier="thorough", funcs=F,
+            desc=f"history of 3 operations starting with {OPS[first]}, the other two symbolic over close/read/open/write, fault position 0..16, kind symbolic, default policy")
 
 
 # ---- one step from the directly constructed connected state (session + connection held by the target)
